@@ -1,6 +1,6 @@
 import vf
 
-RULE = ("Gen_Hull: one TLC state per subset (1..MaxN points) of the lattice; the hull ring is defined declaratively (extreme points "
+RULE = ("Large inputs: 1 500 (12 000) recorded calls of quick_hull / graham_hull / MultiPoint / LineString convex_hull / quick_hull<i64> on seeded random lattice multisets of 3 - 400 points (small spans with many duplicates and collinear runs, two parallel runs, lattice triangles, all collinear) are judged by Trace_Hull.tla: the returned ring must satisfy the three conditions that determine the hull. Gen_Hull: one TLC state per subset (1..MaxN points) of the lattice; the hull ring is defined declaratively (extreme points "
         "by Caratheodory, walked counter-clockwise) and HullOK checks on every state that it is strictly convex, uses input "
         "points only and contains all of them; the exact minimum rotated-rectangle area is the rational minimum over hull edges. "
         "Replay of every set in 5 orders (sorted, reversed, rotated, shuffled, with duplicates) into quick_hull, graham_hull, "
@@ -18,7 +18,22 @@ def check(tier, seed, t0):
     else:
         runs = [dict(name="k3", module="Gen_Hull", constants=dict(K=3, MaxN=7, Stride=1, Offset=0, BigK="{4, 5, 7, 12, 16, 24}"), invariants=["HullOK", "BigOK"], timeout=3000),
                 dict(name="k4", module="Gen_Hull", constants=dict(K=4, MaxN=5, Stride=1, Offset=0, BigK="{}"), invariants=["HullOK"], timeout=3000)]
-    vf.simple_check("C08", tier, seed, t0, runs, RULE, ASSUME,
+    # large random multisets (impl -> spec): recorded rings judged by Trace_Hull.tla
+    import json, os
+    trace = os.path.join(vf.WORK, "C08_trace.ndjson")
+    vf.build_harness()
+    nev = 1500 if tier == "quick" else 12000
+    vf.run_harness(["record", "c08", trace, nev, "--seed", seed])
+    results, rejects, n = vf.validate_events("C08_validate", "Trace_Hull", trace, chunk=4000)
+    big = sum(1 for line in open(trace) if len(json.loads(line)["pts"]) >= 60)
+    os.remove(trace)
+    if n < nev or big < nev // 8:
+        raise vf.ToolError("recorded hull trace is vacuous: %d events, %d with >= 60 points" % (n, big))
+    extra = [{"kind": "mismatch", "prop": "C08", "sub": "trace:" + why, "case": ev,
+              "detail": {"what": "recorded hull is rejected by Trace_Hull: " + why}} for ev, why in rejects]
+    vf.simple_check("C08", tier, seed, t0, runs, RULE, ASSUME, extra_mismatches=extra,
+                    extra_cov={"recorded_calls_validated": n, "recorded_calls_with_60_or_more_points": big,
+                               "trace_validation_states": sum(r["distinct"] for r in results)},
                     nontrivial=lambda c: not c["degenerate"] and len(c["ring"]) - 1 < len(c["pts"]))
 
 
